@@ -35,7 +35,45 @@ func C09_http_upgrader() {
 	}}
 	compliant, determinate := true, true
 	wantStatus := 0
-	switch vChoose("perturb", 13) {
+	negotiate := -1 // >= 0: a Negotiate callback objecting to the extension with this index
+	switch vChoose("perturb", 18) {
+	case 13: // any protocol version with small components
+		mj, mn := int(vU8("major")), int(vU8("minor"))
+		vAssume(vAnd(mj <= 3, mn <= 3))
+		r.ProtoMajor, r.ProtoMinor = mj, mn
+		if mj >= 2 {
+			determinate = false // HTTP/2.x reaching HTTPUpgrader: left open
+		}
+		compliant = mj == 1 && mn >= 1
+		if !compliant {
+			wantStatus = 505
+		}
+	case 14: // any three-byte method
+		m := vBytes("method", 3)
+		r.Method = string(m)
+		compliant = vConcrete(vIte(vEqBytes(m, []byte("GET")), 1, 0)) == 1
+		wantStatus = 405
+	case 15: // any version value of two or three bytes
+		v := vBytes("ver", 2+vChoose("verlen", 2))
+		for _, c := range v {
+			vAssume(vAnd(c != ' ', c != '\t'))
+		}
+		r.Header["Sec-Websocket-Version"] = []string{string(v)}
+		compliant = vConcrete(vIte(vEqBytes(v, []byte("13")), 1, 0)) == 1
+		wantStatus = 426
+	case 16: // extensions over two header lines, the Negotiate callback objecting to one of them
+		r.Header["Sec-Websocket-Extensions"] = []string{"x-a; k=v, x-b", "x-c"}
+		negotiate = vChoose("objectto", 4) // 3: objects to none
+		compliant = negotiate == 3
+		wantStatus = 403
+	case 17: // the upgrade token inside a longer Connection list, any letter case
+		v := []byte("upgrade")
+		for i := range v {
+			if vBool("case") {
+				v[i] ^= 0x20
+			}
+		}
+		r.Header["Connection"] = []string{"keep-alive , " + string(v) + ",x"}
 	case 0:
 	case 1:
 		r.Method = "POST"
@@ -97,6 +135,16 @@ func C09_http_upgrader() {
 		},
 		Extension: func(o httphead.Option) bool { return true },
 	}
+	var negotiated []string
+	if negotiate >= 0 {
+		u.Negotiate = func(o httphead.Option) (httphead.Option, error) {
+			if string(o.Name) == []string{"x-a", "x-b", "x-c", "-"}[negotiate] {
+				return httphead.Option{}, RejectConnectionError(RejectionStatus(403), RejectionReason("no"))
+			}
+			negotiated = append(negotiated, string(o.Name))
+			return o.Copy(make([]byte, o.Size())), nil
+		}
+	}
 	conn := &vNetConn{}
 	w := &vHijackRW{conn: conn, hdr: http.Header{}}
 	_, _, hs, err := u.Upgrade(r, w)
@@ -123,6 +171,9 @@ func C09_http_upgrader() {
 		vAssert(hs.Protocol == want, "http.first_acceptable_protocol")
 		sent, _ := resp.get("Sec-WebSocket-Protocol")
 		vAssert(sent == want, "http.protocol_sent")
+		if negotiate == 3 {
+			vAssert(vAnd(len(negotiated) == 3, len(hs.Extensions) == 3), "http.every_offered_extension_negotiated")
+		}
 		return
 	}
 	vAssert(resp.status != 101, "http.no_101_on_failure")
